@@ -380,6 +380,8 @@ class StringValue(Value):
         if value[-1] != value[0]:
             raise ValueTypeError("string must begin and end with same delimiter")
         self.original_string = value[1:-1]
+        if any(ord(x) > 0xFF for x in self.original_string):
+            raise ValueTypeError("string characters must fit in one byte")
         self.hex_array = ["{:02X}".format(ord(x)) for x in value[1:-1]]
 
     def hex(self, size=0):
